@@ -576,7 +576,7 @@ def r6_bsearch(ctx):
         closed_hi = all(u == mid + "-1" for u in upd[hi])
         open_hi = all(u == mid for u in upd[hi])
         step_lo = all(u == mid + "+1" for u in upd[lo])
-        inits = [text(n.value).replace(" ", "") for n in f.own_nodes()
+        inits = [pat.inline(ctx, f, n.value).replace(" ", "") for n in f.own_nodes()
                  if isinstance(n, ast.Assign) and text(n.targets[0]) == hi
                  and not any(n is x for x in ast.walk(w))]
         init_closed = any(i.endswith("-1") for i in inits)
@@ -830,7 +830,7 @@ def r10_siblings(ctx):
         if nf:
             got["next_fmt"] = nf[0]
         have[cname] = (f, got)
-    ctx.floor("C20.R10", n_lvl, 8, "level tests of the encoders")
+    ctx.floor("C20.R10", n_lvl, 3, "level tests of the encoders")
     parts = [("child", "hands each child to codec.encode and takes (fiber, occupancy) back"),
              ("sum", "adds the child's occupancy to the running sum when that is an int "
                      "(`isinstance(<sum>, int)`)"),
@@ -868,7 +868,7 @@ def r10_siblings(ctx):
                             "at `depth` or `depth + 1` (this rank, the rank below); "
                             "this one consults another rank's format (or runs off "
                             "the end of the descriptor)" % (cname, text(s_)))
-    ctx.floor("C20.R10", n_tab, 8, "per-rank table reads in the encoders")
+    ctx.floor("C20.R10", n_tab, 3, "per-rank table reads in the encoders")
     # (c) the bit mask: dim_len zero bits, a one at every stored coordinate
     f = _cls(ctx, "Bitvector").methods.get("encodeFiber")
     if f is not None:
@@ -927,12 +927,17 @@ def r11_slots(ctx):
         if isinstance(s_, ast.Subscript) and text(s_.value) in (ot, "self.fmts"):
             n += 1
             ix = text(s_.slice).replace(" ", "")
+            lf = _level_form(s_.slice, "depth", "\0")      # a * depth + c
+            root = at_root(s_)
             if text(s_.value) == ot:
-                good = (ix == "0" and at_root(s_)) or (ix == "depth+1" and not at_root(s_))
+                want_lf = (1, 0, 1)
                 want = "0 for the root, depth + 1 for a rank"
             else:
-                good = (ix == "0" and at_root(s_)) or (ix == "depth" and not at_root(s_))
+                want_lf = (1, 0, 0)
                 want = "fmts[0] for the root, fmts[depth] for a rank"
+            # at the root depth is -1: slot 0, however it is spelled
+            good = lf is not None and lf[1] == 0 and (
+                (root and -lf[0] + lf[2] == 0) or (not root and lf == want_lf))
             if good:
                 ctx.ok("C20.R11", f, s_, "slot %s" % ix)
             else:
@@ -1131,6 +1136,21 @@ def r13_short_paths(ctx):
             pat.A("<=", q, "self.coords[0]"): ("0", "query not above the first coordinate")}
     neg = {pat.A("!=", "len(self.coords)", "0"), pat.A("<=", q, "self.coords[-1]"),
            pat.A("<", "self.coords[0]", q)}
+    ln_ = "len(self.coords)"
+    empty_sp = {pat.A("==", ln_, "0"), ("truth", "self.coords", False), ("truth", ln_, False),
+                pat.A("<", ln_, "1"), pat.A("<=", ln_, "0")}
+    full_sp = {pat.A("!=", ln_, "0"), ("truth", "self.coords", True), ("truth", ln_, True),
+               pat.A("<=", "1", ln_), pat.A("<", "0", ln_)}
+
+    def canon_atom(a):
+        # the last stored coordinate, and (non-)emptiness, in one spelling each
+        a = tuple(x.replace("self.coords[len(self.coords)-1]", "self.coords[-1]")
+                  if isinstance(x, str) else x for x in a)
+        if a in empty_sp:
+            return pat.A("==", ln_, "0")
+        if a in full_sp:
+            return pat.A("!=", ln_, "0")
+        return a
     seen = {}
     stray = []
     for r in pat.returns(f):
@@ -1139,7 +1159,7 @@ def r13_short_paths(ctx):
         if loops and not cfg_can_reach(f, r, loops[0]) and cfg_can_reach(f, loops[0], r):
             continue        # the answer of the search itself
         for cl in pat.guard_dnf(ctx, f, r, asserts=False, inline_=True) or []:
-            core = frozenset(cl) - neg
+            core = frozenset(canon_atom(a) for a in cl) - neg
             val = text(r.value) if r.value is not None else "None"
             if len(core) == 1 and next(iter(core)) in want:
                 seen.setdefault(next(iter(core)), []).append((val, r))
